@@ -103,6 +103,13 @@ def cases(ctx):
     add("recursion", "LIMIT := 1\n*=0x008000\n.macro zz_r(d) {\n.if LIMIT {\n.for zz_i := 0, 2 {\nzz_r(d)\n}\n}\n}\nzz_r(0)\n")
     add("recursion", "*=0x008000\n.macro zz_r(d) {\n.if d {\nzz_r(d)\nzz_r(d)\nzz_r(d)\n} else {\nzz_r(1)\nzz_r(1)\n}\n}\nzz_r(0)\n")
     add("recursion", "*=0x008000\n.macro zz_r(c) {\n{{c}}\n}\n.macro zz_q() {\nzz_r({\nzz_q()\nzz_q()\n})\n}\nzz_q()\n")
+    # -D texts: the expression scanner / parser / evaluator entered from the command line (eval_expression_str), with texts
+    # that end early, carry line ends, unknown characters or operators: each run ends (a value, or a reported error)
+    for i, text in enumerate(["1 ?", "0x10\n", "0x10\n+ 2", "(1", "UNDEF + 1", "1 +", "$", "", "'", "0x", "1 2", "~", "((((1))))",
+                              "1 == 1", "1 +\n", "\n", " ", "2 * (3", "0b", "1 , 2", "-", "- - 1", "a b", "1 ? 2", "0x10 $", "1\t+\t2"]):
+        out.append({"kind": "define-text", "rom": "low", "mapping": "low", "format": "ips", "copier": False, "files": {},
+                    "src": "*=0x008000\n.db 1\n", "cli": True, "cli_defines": {"SIZE": text}, "count_empty": True,
+                    "spec": {"t": "c15"}})
     # table files with lines that are not entries: long runs of hex digits without '=' (rulers, checksums, a cut entry),
     # blanks between digit groups, lone separators: every such line is skipped in time linear in its length
     for i, noise in enumerate(["0123456789ABCDEF0123456789abcdef0123456789ABCDEF", "00" * 40, "0 1 2 3 4 5 6 7 8 9 a b c d e f " * 3,
